@@ -1717,7 +1717,7 @@ def slice_get(ip, st, ci):
     return out
 
 
-def _const_generic(ci):
+def _const_generic(ci, ip=None):
     """value of the (single) const generic argument of the callee, as a Lin."""
     for a in ci["fn"].get("resolved", ci["fn"]).get("args", []) + ci["fn"].get("args", []):
         if "const" in a:
@@ -1726,6 +1726,11 @@ def _const_generic(ci):
                 return lin(c)
             if isinstance(c, str) and c.strip().split("_")[0].isdigit():
                 return lin(int(c.strip().split("_")[0]))
+            if ip is not None and isinstance(c, str):
+                # a const parameter of the calling helper (`fn chunk<const N: usize>`), forwarded
+                b = ip.tyenv[-1].get(c.strip())
+                if isinstance(b, tuple) and b[0] == "constval" and str(b[1]).strip().split("_")[0].isdigit():
+                    return lin(int(str(b[1]).strip().split("_")[0]))
     raise Undecided("const generic argument of %s" % ci["fn"]["path"])
 
 
@@ -1737,7 +1742,7 @@ def split_chunk(ip, st, ci):
     """split_first_chunk::<N>() -> Option<(&[T; N], &[T])> and its siblings."""
     tg = tg_of(ci["args"][0])
     esz = ip.sizeof(crate(ci), fn_targs(ci)[0])
-    n = _const_generic(ci) * esz
+    n = _const_generic(ci, ip) * esz
     total = ip.tlen(st, tg)
     name = ci["fn"]["name"]
     out = []
